@@ -127,20 +127,22 @@ class Context:
             other = self._ref_values.get(ref_name)
             if other is expr:
                 assert expr.props["ref"] == ref_name  # sanity check
-                return expr
+                return ref_name
             counter = 0
             # cannot use double-underscore (`__`) because such names
             # appear reserved in stablehlo or llvm, see
             # functional_algorithms#68
             ref_name_ = f"_{ref_name}_{counter}_"
-            while other is not None:
+            while True:
+                # the candidate must be checked also when the prefixed name itself is free
                 other = self._ref_values.get(ref_name_)
                 if other is expr:
                     assert expr.props["ref"] == ref_name_  # sanity check
-                    return expr
-                elif other is not None:
-                    counter += 1
-                    ref_name_ = f"_{ref_name}_{counter}_"
+                    return ref_name_
+                elif other is None:
+                    break
+                counter += 1
+                ref_name_ = f"_{ref_name}_{counter}_"
             ref_name = ref_name_
 
         # register reference name:
